@@ -126,20 +126,21 @@ ReadyD(f) ==
      /\ \E p \in CtrlPreds(f.g, n) : DoneP(f, p) /\ RoutesCtrl(f, p, n)
      /\ \A p \in DataPreds(f.g, n) : ResolvedD(f, sk, p)}
 InputD(f, n) == MergeAll(f.outs, {p \in DataPreds(f.g, n) : DoneP(f, p) /\ RoutesData(f, p, n)})
+\* the all-predecessor frame never enters a terminal expectation: while END is already assembled other due nodes (same batch, or
+\* still running in eager mode) may legitimately execute; what the run may return is decided when it returns
 DView(f) ==
   IF f.st # "route" THEN f
-  ELSE LET rd == ReadyD(f) IN
-       IF END \in rd THEN (LET m == InputD(f, END) IN IF m.ok THEN [f EXCEPT !.st = "expect_result", !.expect = m.v] ELSE [f EXCEPT !.st = "expect_dup"])
-       ELSE IF END \in Skipped(f) THEN [f EXCEPT !.st = "expect_endskipped"]
-       ELSE IF rd = {} /\ f.running = {} /\ f.aborted = {} THEN [f EXCEPT !.st = "expect_stuck"]
-       ELSE [f EXCEPT !.pending = [n \in rd |-> InputD(f, n).v]]
+  ELSE LET rd == ReadyD(f) \ {END} IN [f EXCEPT !.pending = [n \in rd |-> InputD(f, n).v]]
 
 \* Norm: the frame as the rule sees it now (idempotent)
 Norm(f) == IF IsDag(f.g) THEN DView(f)
            ELSE IF f.st = "route" /\ PQuiet(f) /\ AllChosenP(f) THEN PAdvance(f) ELSE f
 StepLimitHit(f) == ~IsDag(f.g) /\ f.st = "exec" /\ f.fresh /\ f.step > MaxSteps(f.g)
 CanExec(f) == IF IsDag(f.g) THEN f.st = "route" ELSE f.st = "exec"
-DeadEnd(f) == f.st \in {"expect_stuck", "expect_endskipped"}
+DeadEnd(f) == IF IsDag(f.g) THEN f.st = "route" /\ (END \in Skipped(f) \/ (ReadyD(f) = {} /\ f.running = {} /\ f.aborted = {}))
+              ELSE f.st = "expect_stuck"
+ResultReady(f) == IF IsDag(f.g) THEN f.st = "route" /\ END \in ReadyD(f) /\ InputD(f, END).ok ELSE f.st = "expect_result"
+ResultValue(f) == IF IsDag(f.g) THEN InputD(f, END).v ELSE f.expect
 \* a run that has nothing left to execute fails either way; the engine tests the step limit first
 LimitAtDeadEnd(f) == ~IsDag(f.g) /\ f.st = "expect_stuck" /\ f.step + 1 > MaxSteps(f.g)
 \* after-nodes whose completion must be reported before one of their successors starts: in lock-step mode those of
@@ -179,16 +180,18 @@ FinishNode(f, n, out) ==
                     !.st = IF DOMAIN f.pending = {} /\ f.running \ {n} = {} /\ f.aborted = {} THEN "route" ELSE f.st]
 
 \* a child whose rule state is expect_result completes the parent's graph node with that value
-ChildDone(F, p) == p # "" /\ Norm(F[p]).st = "expect_result"
-RECURSIVE Absorb(_, _)
-Absorb(gg, F) ==
-  IF \E p \in DOMAIN F : ChildDone(F, p)
-  THEN LET p == CHOOSE q \in DOMAIN F : ChildDone(F, q)
+\* (the child addressed by the current observation is kept: nodes of its last batch may still be reporting)
+ChildDone(F, p, keep) == p # "" /\ p # keep /\ ResultReady(Norm(F[p])) /\ Norm(F[p]).running = {}
+RECURSIVE Absorb(_, _, _)
+Absorb(gg, F, keep) ==
+  IF \E p \in DOMAIN F : ChildDone(F, p, keep)
+  THEN LET p == CHOOSE q \in DOMAIN F : ChildDone(F, q, keep)
            rest == [q \in (DOMAIN F) \ {p} |-> F[q]]
-       IN Absorb(gg, [rest EXCEPT ![""] = FinishNode(F[""], SubNode(gg, p), Norm(F[p]).expect)])
+       IN Absorb(gg, [rest EXCEPT ![""] = FinishNode(F[""], SubNode(gg, p), ResultValue(Norm(F[p])))], keep)
   ELSE F
 \* all frames as the rule sees them now
-View(S) == LET F == Absorb(S.g, S.fr) IN [p \in DOMAIN F |-> Norm(F[p])]
+ViewK(S, keep) == LET F == Absorb(S.g, S.fr, keep) IN [p \in DOMAIN F |-> Norm(F[p])]
+View(S) == ViewK(S, "")
 
 \* open the child frame p on its first event: its graph node must be due in the parent
 CanOpen(gg, V, p) == /\ IsSubPrefix(gg, p) /\ p \notin DOMAIN V
@@ -196,10 +199,10 @@ CanOpen(gg, V, p) == /\ IsSubPrefix(gg, p) /\ p \notin DOMAIN V
 StartNode(f, n) ==
   IF IsDag(f.g) THEN [f EXCEPT !.status[n] = "run", !.running = f.running \cup {n}, !.cleared = f.cleared \ {n},
                                !.preDone = f.preDone \ {n}, !.redo = f.redo \ {n}, !.pending = Empty,
-                               !.ins = (n :> f.pending[n]) @@ f.ins]
+                               !.ins = (n :> f.pending[n]) @@ f.ins, !.canceled = f.canceled \/ FailKind(f.g, n) = "cancel"]
   ELSE [f EXCEPT !.pending = [x \in (DOMAIN f.pending) \ {n} |-> f.pending[x]], !.running = f.running \cup {n},
                  !.cleared = f.cleared \ {n}, !.preDone = f.preDone \ {n}, !.redo = f.redo \ {n}, !.fresh = FALSE,
-                 !.ins = (n :> f.pending[n]) @@ f.ins]
+                 !.ins = (n :> f.pending[n]) @@ f.ins, !.canceled = f.canceled \/ FailKind(f.g, n) = "cancel"]
 Open(gg, V, p) == LET n == SubNode(gg, p) IN (p :> NewFrame(SubOf(gg, n), V[""].pending[n])) @@ ("" :> StartNode(V[""], n)) @@ V
 \* why a graph node may not start (checked when its frame opens)
 OpenWhy(gg, V, p) == LET f == V[""]  n == SubNode(gg, p) IN
@@ -211,7 +214,8 @@ OpenWhy(gg, V, p) == LET f == V[""]  n == SubNode(gg, p) IN
 (* Node-level observations: pre (state pre-handler), exec / abort (body begins), done (body ends), branch              *)
 
 ExecWhy(f, e, isAbort) == LET n == e.n IN
-  IF ~CanExec(f) THEN "exec-not-expected-in-state-" \o f.st
+  IF IsDag(f.g) /\ n \in GNodes(f.g) /\ CtrlPreds(f.g, n) = {} THEN "dag-node-without-control-predecessor-executed"
+  ELSE IF ~CanExec(f) THEN "exec-not-expected-in-state-" \o f.st
   ELSE IF StepLimitHit(f) THEN "exec-beyond-step-limit"
   ELSE IF n \notin DOMAIN f.pending THEN (IF IsDag(f.g) /\ n \in GNodes(f.g) /\ f.status[n] # "unk" THEN "node-executed-twice" ELSE "exec-of-node-not-triggered")
   ELSE IF f.pending[n] # e.i THEN "wrong-input"
@@ -225,7 +229,11 @@ AfterAbort(f, n) == [f EXCEPT !.aborted = f.aborted \cup {n}, !.preDone = f.preD
                               !.pending = IF IsDag(f.g) THEN Empty ELSE f.pending]
 
 OnNode(S, e, isAbort) ==
-  LET p == e.p  V0 == View(S) IN
+  LET p == e.p
+      Vk == ViewK(S, p)
+      \* a finished inner run whose graph node is executed again (cycle in the parent): close it, the new execution opens a fresh frame
+      V0 == IF p # "" /\ p \in DOMAIN Vk /\ ResultReady(Vk[p]) /\ Vk[p].running = {} /\ e.n \notin DOMAIN Vk[p].pending THEN View(S) ELSE Vk
+  IN
   IF p \notin DOMAIN V0 /\ ~CanOpen(S.g, V0, p) THEN BadS(S, "exec-in-graph-node-not-triggered")
   ELSE IF p \notin DOMAIN V0 /\ OpenWhy(S.g, V0, p) # "ok" THEN BadS(S, OpenWhy(S.g, V0, p))
   ELSE LET V == IF p \in DOMAIN V0 THEN V0 ELSE Open(S.g, V0, p)
@@ -236,7 +244,7 @@ OnNode(S, e, isAbort) ==
                          !.top.progress = TRUE]
 
 OnPre(S, e) ==
-  LET p == e.p  V == View(S) IN
+  LET p == e.p  V == ViewK(S, p) IN
   IF p \notin DOMAIN V THEN BadS(S, "pre-handler-in-unknown-frame")
   ELSE LET f == V[p]  n == e.n IN
        IF ~f.g.state THEN BadS(S, "pre-handler-without-state")
@@ -254,7 +262,7 @@ OnDone(S, e) ==
        ELSE [S EXCEPT !.fr[p] = FinishNode(f, n, OutOf(n, f.ins[n]))]
 
 OnBranch(S, e) ==
-  LET p == e.p  F == Absorb(S.g, S.fr) IN
+  LET p == e.p  F == Absorb(S.g, S.fr, p) IN
   IF p \notin DOMAIN F THEN BadS(S, "branch-in-unknown-frame")
   ELSE LET f == F[p]  b == e.b IN
        IF b \notin 1..NB(f.g) THEN BadS(S, "unknown-branch")
@@ -304,17 +312,18 @@ OnResume(S, e) ==
 EndS(S) == [S EXCEPT !.top.st = "ended"]
 OnResult(S, e) ==
   LET f == View(S)[""] IN
-  IF f.st # "expect_result" THEN BadS(S, "result-not-expected-in-state-" \o f.st)
-  ELSE IF f.expect # e.v THEN BadS(S, "wrong-result")
+  IF ~ResultReady(f) THEN BadS(S, "result-not-expected-in-state-" \o f.st)
+  ELSE IF ResultValue(f) # e.v THEN BadS(S, "wrong-result")
   ELSE IF e.sets # <<>> THEN BadS(S, "checkpoint-written-without-interrupt")
   ELSE EndS(S)
 
 \* failing nodes: running, configured to fail with this kind, as <<prefix, node>>
 Failing(V, kind) == UNION {{<<p, n>> : n \in {x \in V[p].running : x \in GNodes(V[p].g) /\ FailKind(V[p].g, x) = kind}} : p \in DOMAIN V}
-CancelRan(V) == \E p \in DOMAIN V : \E n \in GNodes(V[p].g) :
-                   FailKind(V[p].g, n) = "cancel" /\ (n \in V[p].running \/ n \in DOMAIN V[p].outs \/ (IsDag(V[p].g) /\ V[p].status[n] # "unk"))
+CancelRan(V) == \E p \in DOMAIN V : V[p].canceled
 ErrorWhy(gg, V, e) == LET c == e.class IN
-  IF e.sets # <<>> THEN "checkpoint-written-without-interrupt"
+  IF c = "hang" THEN "run-hangs"
+  ELSE IF c = "escaped-panic" THEN "panic-escaped-the-run"
+  ELSE IF e.sets # <<>> THEN "checkpoint-written-without-interrupt"
   ELSE IF c = "node" THEN
        (IF ~\E x \in Failing(V, "err") : e.path = PathOf(gg, x[1]) \o <<x[2]>> THEN "error-names-wrong-node-path"
         ELSE IF ~e.is \/ ~e.as THEN "cause-not-unwrappable"
